@@ -403,3 +403,54 @@ def spec (design : String) : String :=
     | some s => s
 
 end Wellen.GhwSpec
+
+/-! ### the format-independent observation (C12) -/
+namespace Wellen.GhwSpec
+open Wellen.Spec Wellen.Tree Wellen.Proto Wellen.Bits
+
+/-- value text of the common interface: `to_bit_string` / the IEEE bit pattern -/
+def obsValue : Value → String
+  | .bits syms => strOf (syms.map fun v => Gen.lookup9.getD v 63)
+  | .real le => "r" ++ toHex le.reverse
+  | .str b => "s" ++ toHex b
+
+/-- the last value written in each time step -/
+def lastPerStep : List (Nat × Value) → List (Nat × Value)
+  | [] => []
+  | [x] => [x]
+  | x :: y :: rest => if x.1 = y.1 then lastPerStep (y :: rest) else x :: lastPerStep (y :: rest)
+
+/-- value at every time: (time in fs, value) with unchanged steps dropped -/
+def observeChanges (times : List Nat) (l : List (Nat × Value)) : List (Nat × Value) :=
+  canon ((lastPerStep l).map fun (i, v) => (times.getD i 0, v))
+
+def obsChanges (times : List Nat) (l : List (Nat × Value)) : String :=
+  let c := observeChanges times l
+  if c.isEmpty then "-" else "/".intercalate (c.map fun (t, v) => s!"{t}={obsValue v}")
+
+/-- tree with names, nesting, order, widths and the observed values; kinds, directions, type names are format specific -/
+def obsOps (d : Denotation) : List LOp :=
+  d.ops.map fun o =>
+    match o.op with
+    | .scope name _ => { o with label := hexOr (name.toList.map Char.toNat) }
+    | .var name _ =>
+      -- label = `<VarType>,<namehex>,<Dir>,<enc>,<idx>`: keep the name and the width
+      let parts := o.label.splitOn ","
+      let enc := parts.getD 3 "?"
+      let w := if enc = "R" then "real" else (enc.drop 1).toString
+      { o with label := hexOr (name.toList.map Char.toNat) ++ "," ++ w }
+    | .pop => o
+
+/-- the observation of a design's denotation -/
+def observe (d : Denotation) : Option String :=
+  treeSWith (obsOps d) fun l _ => s!"V({l.label},{obsChanges d.times (d.changes.getD l.sig [])})"
+
+def specObserve (design : String) : String :=
+  match parseDesign design with
+  | none => "-"
+  | some (items, w) =>
+    match (denote items w).bind observe with
+    | none => "-"
+    | some s => s
+
+end Wellen.GhwSpec
